@@ -529,7 +529,10 @@ def header_probe(ctx, cc, work, name, src, keyfmt, skip=()):
     def table(r):
         d = {}
         for l in r['out'].decode('utf-8', 'replace').split('\n'):
-            if ' ' in l:
+            if ' | ' in l:
+                k, v = l.split(' | ', 1)        # labels that contain blanks (stringized expressions) end at the bar
+                d[k] = v
+            elif ' ' in l:
                 k, v = l.split(' ', 1)
                 d[k] = v
         return d
